@@ -107,6 +107,51 @@ def child_main(argv):
         with open(result_path, 'w') as f:
             json.dump(out, f)
         return
+    if scenario in ('overwrite', 'meta'):
+        # 'overwrite': an earlier run left an archive with records; the same command is run again without --warc-append and
+        #   starts the archive over.  The monitored operation is the construction of the new recorder (replacing the old
+        #   archive and appending its first record).
+        # 'meta': size-split archives (--warc-max-size) with the log record enabled; the monitored operation is close(),
+        #   which starts NAME-meta.warc[.gz] and appends its warcinfo and the log record there.
+        p1 = WARCRecorderParams(compress=compress, log=(scenario == 'meta'), temp_dir=workdir,
+                                max_size=(10 ** 6 if scenario == 'meta' else None))
+        first = WARCRecorder(prefix, params=p1)
+
+        def make1(i, n):
+            rec = WARCRecord()
+            rec.set_common_fields('resource', 'application/octet-stream')
+            rec.fields['WARC-Target-URI'] = 'urn:x-verif:%d' % i
+            rec.block_file = io.BytesIO(bytes((i * 7 + j * 13) % 251 for j in range(n)))
+            first.set_length_and_maybe_checksums(rec)
+            return rec
+        for i in range(earlier):
+            first.write_record(make1(i, 40 + i))
+        if scenario == 'overwrite':
+            first.close()
+        snaps = {}
+        for path in sorted(glob.glob(prefix + '*.warc*')):
+            if path.endswith('-wpullinc'):
+                continue
+            with open(path, 'rb') as f:
+                data = f.read()
+            snaps[os.path.basename(path)] = len(data)
+            with open(os.path.join(workdir, 'snap-' + os.path.basename(path)), 'wb') as f:
+                f.write(data)
+        with open(os.path.join(workdir, 'meta.json'), 'w') as f:
+            json.dump({'multi': True, 'snaps': snaps, 'preserve': scenario == 'meta'}, f)
+        os.environ['FI_ARMED'] = '1'
+        try:
+            if scenario == 'overwrite':
+                WARCRecorder(prefix, params=WARCRecorderParams(compress=compress, log=False, temp_dir=workdir))
+            else:
+                first.close()
+            out = {'raised': None}
+        except BaseException as e:
+            out = {'raised': type(e).__name__, 'text': str(e)[:200], 'is_oserror': isinstance(e, OSError)}
+        os.environ['FI_ARMED'] = '0'
+        with open(result_path, 'w') as f:
+            json.dump(out, f)
+        return
     recorder = WARCRecorder(prefix, params=params)      # writes the warcinfo record
 
     def make(i, n):
@@ -196,6 +241,9 @@ def case_worker(job):
         try:
             with open(os.path.join(workdir, 'meta.json')) as f:
                 meta = json.load(f)
+            if meta.get('multi'):
+                judge_multi(part, workdir, meta, proc, cfg, op, opclass, mode, errno_, replay)
+                return part.dump()
             with open(os.path.join(workdir, 'snap.bin'), 'rb') as f:
                 snapshot = f.read()
         except OSError:
@@ -330,6 +378,103 @@ def case_worker(job):
     return part.dump()
 
 
+def judge_multi(part, workdir, meta, proc, cfg, op, opclass, mode, errno_, replay):
+    '''Operations that touch several archive files or replace one (scenarios 'overwrite', 'meta').  The exact bytes
+    "before the attempt" are not fixed from outside (the operation consists of several appends, or starts with emptying
+    the file), so the verdict uses what the property promises of every archive file: after an I/O error it is a valid
+    record sequence, keeps the earlier records where they are to be kept, and no journal remains; after a kill it is
+    valid, or its own journal <archive>-wpullinc names a length that restores a valid archive (with the earlier records).'''
+    sc = cfg['scenario']
+    snaps = {}
+    for name in meta['snaps']:
+        with open(os.path.join(workdir, 'snap-' + name), 'rb') as f:
+            snaps[name] = f.read()
+    archives = {}
+    for path in sorted(glob.glob(os.path.join(workdir, 'arch*.warc*'))):
+        if not path.endswith('-wpullinc'):
+            with open(path, 'rb') as f:
+                archives[os.path.basename(path)] = f.read()
+    journals = sorted(os.path.basename(j) for j in glob.glob(os.path.join(workdir, 'arch*-wpullinc')))
+    result = None
+    if os.path.exists(os.path.join(workdir, 'result.json')):
+        with open(os.path.join(workdir, 'result.json')) as f:
+            result = json.load(f)
+    detail = {'op': op, 'mode': mode, 'errno': errno_, 'cfg': cfg, 'result': result, 'journals': journals,
+              'archives': {k: len(v) for k, v in archives.items()}, 'before': {k: len(v) for k, v in snaps.items()}}
+
+    def keeps_earlier(name, data):
+        return not meta['preserve'] or data[:len(snaps.get(name, b''))] == snaps.get(name, b'')
+    if meta['preserve']:
+        for name in snaps:
+            if name not in archives:
+                part.violation('archive-file-gone/{}/{}'.format(sc, opclass), dict(detail, file=name), replay)
+    if mode in ('err', 'sticky', 'short'):
+        if proc.returncode != 0 or result is None:
+            part.violation('process-died-on-io-error/' + opclass, dict(detail, rc=proc.returncode,
+                           out=proc.stdout.decode('utf-8', 'replace')[-300:]), replay)
+            return
+        part.count('append_raised' if result['raised'] else 'error_swallowed')
+        if result['raised'] and not result.get('is_oserror'):
+            part.violation('non-oserror-raised/' + opclass, detail, replay)
+        bad = False
+        for name, data in archives.items():
+            verdict = valid_archive(data, cfg['compress'])
+            if verdict is not True or not keeps_earlier(name, data):
+                bad = True
+                if opclass == 'unlink:journal' and journals:
+                    continue
+                part.violation('archive-not-a-valid-record-sequence-after-failed-append/{}/{}'.format(sc, opclass),
+                               dict(detail, file=name, verdict=str(verdict)), replay)
+        if journals:
+            if opclass == 'unlink:journal' and not bad:
+                # (the mechanism recorded for single appends: only the removal of the journal failed)
+                part.violation('journal-unlink-fails-after-complete-append', detail, replay)
+            else:
+                part.violation('journal-left-after-failed-append/' + opclass, detail, replay)
+        elif not bad:
+            part.count('archives_valid_and_no_journal_after_failure')
+            part.count('archive_equals_snapshot')
+        return
+    if proc.returncode != 137:
+        part.count('kill_not_reached')
+        return
+    part.count('killed')
+    for name, data in archives.items():
+        verdict = valid_archive(data, cfg['compress'])
+        if verdict is True and keeps_earlier(name, data):
+            part.count('archive_valid_after_kill')
+            continue
+        ok = False
+        jname = name + '-wpullinc'
+        if jname in journals:
+            try:
+                with open(os.path.join(workdir, jname)) as f:
+                    text = f.read()
+                off = [int(line.split(':', 1)[1]) for line in text.splitlines() if line.startswith('offset:')]
+                if off and off[0] <= len(data) and valid_archive(data[:off[0]], cfg['compress']) is True and \
+                        keeps_earlier(name, data[:off[0]]) and (not meta['preserve'] or off[0] >= len(snaps.get(name, b''))):
+                    ok = True
+                    part.count('journal_restores_snapshot')
+                else:
+                    detail['journal_text'] = text[:200]
+            except (OSError, ValueError) as e:
+                detail['journal_error'] = str(e)
+        if not ok:
+            part.violation('kill-leaves-invalid-archive-without-usable-journal/{}/{}/{}'.format(sc, mode, opclass),
+                           dict(detail, file=name, verdict=str(verdict)), replay)
+    if journals:
+        run_child(workdir, cfg, 0, 'err', 0, scenario='restart')
+        try:
+            with open(os.path.join(workdir, 'result.json')) as f:
+                r2 = json.load(f)
+        except (OSError, ValueError):
+            r2 = None
+        if not r2 or r2.get('raised') is None:
+            part.violation('restart-accepted-leftover-journal', dict(detail, restart=r2), replay)
+        else:
+            part.count('restart_refused_with_journal')
+
+
 def valid_archive(data, compress):
     if data is None:
         return 'archive missing'
@@ -376,6 +521,11 @@ def main():
     # size-based rollover: the archive (and its journal) carry a sequence number in their names
     for compress in (False, True):
         cfgs.append({'compress': compress, 'earlier': 1, 'size': 60, 'scenario': 'rollover'})
+    # the same command run again without --warc-append (the old archive is replaced), and the NAME-meta archive that
+    # close() writes for size-split archives
+    for compress in (False, True):
+        cfgs.append({'compress': compress, 'earlier': 3, 'size': 0, 'scenario': 'overwrite'})
+        cfgs.append({'compress': compress, 'earlier': 2, 'size': 0, 'scenario': 'meta'})
     if check.thorough:
         for compress in (False, True):
             cfgs.append({'compress': compress, 'earlier': 2, 'size': 60, 'scenario': 'cdx'})
